@@ -51,7 +51,7 @@ template <class GC> struct its_t : public ci::treiber_stack::traits { typedef ci
 template <class GC> struct its_el_t : public its_t<GC> { static constexpr const bool enable_elimination = true; typedef cds::opt::v::initialized_static_buffer<int, 1> buffer; typedef det_rand random_engine; typedef cds::sync::spin_lock<cds::backoff::yield> lock_type; };
 template <class S, class Node> struct IntrStackAd { S& s; Arena<Node>& ar; IntrStackAd(S& s_, Arena<Node>& a) : s(s_), ar(a) {}
   bool push(int v) { return s.push(*ar.make(v)); }
-  bool pop(int& v) { Node* p = s.pop(); if (!p) return false; if (vs::mem_state(p) == 2) vs::report_uad(p, 96); v = p->v; return true; } bool empty() { return s.empty(); } };
+  bool pop(int& v) { Node* p = s.pop(); if (!p) return false; v = p->v; return true; } bool empty() { return s.empty(); } };
 template <class GC, class S, class Node> static void gc_intr_stack(const Program& P) { g_rand_val = 0; Arena<Node> ar; Smr<GC> smr(2, P.threads.size() + 1); { S s; IntrStackAd<S, Node> ad(s, ar); run_stack_program(P, ad, true); } }
 DRV_VARIANT(v_its_hp, "intr_treiber_hp") { gc_intr_stack<cds::gc::HP, ci::TreiberStack<cds::gc::HP, its_node<cds::gc::HP>, its_t<cds::gc::HP>>, its_node<cds::gc::HP>>(P); }
 DRV_VARIANT(v_its_dhp_el, "intr_treiber_dhp_elim1") { gc_intr_stack<cds::gc::DHP, ci::TreiberStack<cds::gc::DHP, its_node<cds::gc::DHP>, its_el_t<cds::gc::DHP>>, its_node<cds::gc::DHP>>(P); }
